@@ -260,7 +260,7 @@ advance_address = Fn(
     ],
     ensures=LOUD + [
         C("other_banks_untouched", "final(self).bank_data@.len() == old(self).bank_data@.len() && forall|k: int| 0 <= k < old(self).bank_data@.len() && k != old(self).bank_ref.0 ==> final(self).bank_data@[k] == old(self).bank_data@[k]", ["C06", "C01"]),
-        C("cursor_untouched", "final(self).index == old(self).index && final(self).subindex == old(self).subindex && final(self).index_prev == old(self).index_prev && final(self).bank_ref == old(self).bank_ref && final(self).is_last_iteration == old(self).is_last_iteration", ["C01"]),
+        C("cursor_untouched", "final(self).index == old(self).index && final(self).subindex == old(self).subindex && final(self).index_prev == old(self).index_prev && final(self).subindex_prev == old(self).subindex_prev && final(self).bank_ref == old(self).bank_ref && final(self).is_last_iteration == old(self).is_last_iteration && final(self).is_first_iteration == old(self).is_first_iteration && final(self).ast == old(self).ast && final(self).symbol_ctx == old(self).symbol_ctx", ["C01"]),
         C("no_previous_item_no_move", "res is Ok && (old(self).index_prev is None || old(self).subindex_prev is None) ==> %s == %s" % (CUR, OLDP), ["C01"]),
         C("position_after_item",
           "res is Ok && old(self).index_prev is Some && old(self).subindex_prev is Some ==> (match %s {"
